@@ -546,8 +546,56 @@ def rude_phase(ctx):
             break
 
 
+def crowded_stop_phase(ctx):
+    """a stop signal while the listen queue is never empty and the daemon is short of descriptors (the acceptor alternates between
+    accept(), EMFILE and the wait for its backlog): the stop is seen all the same and the daemon exits after the requests it
+    had accepted"""
+    import rig, socket as _s, subprocess, signal as _sg
+    exe, err = rig.build_daemon(ctx, name="munged-crowd", san=None)
+    if exe is None:
+        return
+    d = rig.Daemon(ctx, exe, tag="c12crowd", nthreads=2)
+    if not d.start():
+        ctx.violation("munged does not start (crowded stop)", {"obligation": "start"}, found_input=False)
+        return
+    idle = []
+    try:
+        subprocess.run(["prlimit", "--pid", str(d.p.pid), "--nofile=10:10"], capture_output=True)
+        for i in range(40):                         # clients that connect and send nothing: more than the daemon has descriptors
+            try:
+                k = _s.socket(_s.AF_UNIX, _s.SOCK_STREAM)
+                k.settimeout(1)
+                k.connect(d.sock)
+                idle.append(k)
+            except OSError:
+                break
+        time.sleep(0.5)
+        t0 = time.time()
+        gone = None
+        while time.time() - t0 < 30:
+            d.p.send_signal(_sg.SIGTERM)            # repeated: one lost between the flag test and accept() is finding F-C12-accept
+            try:
+                d.p.wait(timeout=1.0)
+                gone = time.time() - t0
+                break
+            except subprocess.TimeoutExpired:
+                pass
+        ctx.count(("crowded-stop", len(idle)))
+        ctx.cov.setdefault("input_distribution", {})["crowded-stop"] = len(idle)
+        if gone is None:
+            ctx.violation("munged with 10 descriptors and %d clients that connected and sent nothing does not stop: still running 30 s after the "
+                          "first of 30 SIGTERMs (the idle clients' requests time out after a few seconds each; the stop request is never seen "
+                          "while the listen queue is not empty)" % len(idle), {"idle_connections": len(idle), "nofile": 10, "signals": 30})
+    finally:
+        for k in idle:
+            k.close()
+        d.stop(timeout=10)
+
+
 def run(ctx):
     _run_own(ctx)
+    if not ctx.replay:
+        crowded_stop_phase(ctx)
     if not ctx.replay:
         stop_phase(ctx)
         rude_phase(ctx)
